@@ -36,5 +36,5 @@ for n in names:
         print("%-45s %s" % (n, "  ".join("%s:%s" % (p, "CAUGHT(%d concrete)" % v["concrete"] if v["concrete"] else ("flagged-no-input" if v["violations"] else "MISSED")) for p, v in row.items())), flush=True)
     finally:
         subprocess.run(["git", "-C", "/repo", "worktree", "remove", "--force", W])
-subprocess.run("cd /verif && git checkout -q -- evidence harness/.cargo/config.toml lean/CfbVerif/Gen", shell=True)
+subprocess.run("cd /verif && git checkout -q -- evidence harness/.cargo/config.toml; python3 /verif/tools/gen_lean.py --repo /repo >/dev/null 2>&1", shell=True)
 json.dump(res, open(V + "/seeded/RESULTS.json", "w"), indent=1)
